@@ -416,7 +416,7 @@ theorem applyLoop_stack {fs : FS} {cfg : Cfg} (range : List Series.Entry) (hd : 
         · rename_i patch hpp
           have hw := parsed_wflen hpp
           have hsim := applyFilePatches_sim (fs := fs) (cfg := cfg) (i := k) (entry := entry) patch.fps
-            st t false true [] hs hde hw rfl
+            st t false true [] hs hde hw (parsed_rename_new hpp) rfl
           split at h
           · cases h
           · rename_i st1 af happ
